@@ -182,3 +182,23 @@ def hi_eq_divisor_requests(rng, n, fD):
             p = 18 + q - k
             out.append("%s %s %s %s" % (rng.choice(("div", "cdiv")), rng.choice(("vv", "*")), fD(rng.choice((1, -1)) * x, p), fD(rng.choice((1, -1)) * y, q)))
     return out
+
+
+def small_divisor_top_word_requests(rng, n):
+    """Divisors below 2^64 with a dividend whose upper 128-bit word is c*y*2^64 + d (d < y): the quotient needs
+    more than 192 bits and its second-highest 64-bit word vanishes - overflow must still be reported."""
+    out = []
+    for _ in range(n):
+        y = rng.getrandbits(rng.randrange(2, 40)) + 2
+        c = rng.getrandbits(rng.randrange(1, 20)) + 1
+        d = rng.randrange(0, y)
+        xh = c * y * B + d
+        lo, hi = xh << 128, (xh + 1) << 128
+        pr = product_in(rng, lo, hi)
+        if pr:
+            out.append("k_i256 %d %d %d" % (rng.choice((1, -1)) * pr[0], rng.choice((1, -1)) * pr[1], y))
+        sh = shifted_in(lo, hi)
+        if sh:
+            out.append("k_shdm %d %d %d" % (rng.choice((1, -1)) * sh[0], sh[1], y))
+            out.append("k_shdr %d %d %d RoundHalfEven" % (sh[0], sh[1], rng.choice((1, -1)) * y))
+    return out
